@@ -517,6 +517,18 @@ impl HttpServer {
                 }
             }
         }
+
+        // A connection whose write failed while flushing is closed. If it is owed nothing,
+        // release it now: its socket may never signal readiness again, so `requests` might
+        // not get a chance to reap it while it keeps occupying a connection slot.
+        self.connections.retain(|rawfd, connection| {
+            if connection.is_done() {
+                let _ = Self::epoll_del(epoll, *rawfd);
+                false
+            } else {
+                true
+            }
+        });
     }
 
     /// The file descriptor of the `epoll` structure can enable the server to become
